@@ -149,6 +149,8 @@ fn map_position_checks(content: &str, input: &str) -> (Option<String>, Option<St
     // per generated line: original lines of copied identifiers, and (generated col, original line) of injected tokens
     let mut copied_lines: std::collections::HashMap<u32, (u32, u32)> = std::collections::HashMap::new();
     let mut hook_tokens: Vec<(u32, u32, u32)> = Vec::new();
+    // swc (like Node) drops a leading byte order mark before it computes positions
+    let input = input.strip_prefix('\u{feff}').unwrap_or(input);
     let in_lines: Vec<Vec<u16>> = input.split('\n').map(|l| l.encode_utf16().collect()).collect();
     let out_lines: Vec<Vec<u16>> = content.split('\n').map(|l| l.encode_utf16().collect()).collect();
     let is_start = |c: u16| (c as u8 as char).is_ascii_alphabetic() && c < 128 || c == b'_' as u16 || c == b'$' as u16;
@@ -187,6 +189,10 @@ fn map_position_checks(content: &str, input: &str) -> (Option<String>, Option<St
                 // a private name `#x` is one token starting at `#`
                 let sc2 = if in_lines[sl as usize].get(sc as usize) == Some(&(b'#' as u16)) { sc + 1 } else { sc };
                 let orig = ident_at(&in_lines, sl, sc2);
+                // an identifier spelled with an escape sequence in the input is printed cooked: not comparable as text
+                let escaped = in_lines[sl as usize].get(sc2 as usize) == Some(&(b'\\' as u16))
+                    || { let l = &in_lines[sl as usize]; let mut e = sc2 as usize; while e < l.len() && (is_part(l[e]) || l[e] == b'\\' as u16 || l[e] == b'{' as u16 || l[e] == b'}' as u16) { e += 1; } l[(sc2 as usize).min(l.len())..e].contains(&(b'\\' as u16)) };
+                if escaped { continue; }
                 if orig.as_deref() != Some(id.as_str()) && mismapped.is_none() {
                     mismapped = Some(format!("generated {}:{} `{}` -> {}:{} {:?}", t.get_dst_line(), t.get_dst_col(), id, sl, sc, orig));
                 }
